@@ -40,7 +40,43 @@ pub struct RunOutcome {
     pub trace: Vec<String>,
 }
 
+static HEARTBEAT: std::sync::atomic::AtomicU64 = std::sync::atomic::AtomicU64::new(0);
+
+/// Safety net for code under test that stops making progress without passing a seam (every
+/// seam has its own deterministic budget): a run that takes longer than VMSIM_HANG_S seconds
+/// of wall-clock time (default 300; an ordinary run takes well under a millisecond) or more than
+/// VMSIM_MEM_MB of address space aborts the process, which the controller reports as a crash of
+/// that run and confirms by replaying it under the same two limits.
+pub fn install_watchdog() {
+    let secs: u64 = std::env::var("VMSIM_HANG_S").ok().and_then(|s| s.parse().ok()).unwrap_or(300);
+    let mb: u64 = std::env::var("VMSIM_MEM_MB").ok().and_then(|s| s.parse().ok()).unwrap_or(6144);
+    // SAFETY: plain setrlimit on our own process.
+    unsafe {
+        let lim = libc::rlimit { rlim_cur: mb << 20, rlim_max: mb << 20 };
+        libc::setrlimit(libc::RLIMIT_AS, &lim);
+    }
+    std::thread::spawn(move || {
+        let mut last = HEARTBEAT.load(std::sync::atomic::Ordering::Relaxed);
+        let mut idle = 0u64;
+        loop {
+            std::thread::sleep(std::time::Duration::from_secs(1));
+            let now = HEARTBEAT.load(std::sync::atomic::Ordering::Relaxed);
+            if now != last {
+                last = now;
+                idle = 0;
+            } else {
+                idle += 1;
+                if idle >= secs {
+                    eprintln!("vmsim: a run made no progress for {} s of wall-clock time; aborting the process", secs);
+                    std::process::abort();
+                }
+            }
+        }
+    });
+}
+
 pub fn run_one(scen: &dyn Scenario, tape: Tape, trace: bool) -> RunOutcome {
+    HEARTBEAT.fetch_add(1, std::sync::atomic::Ordering::Relaxed);
     let mut ctx = Ctx::new(tape, trace);
     let info = with_ctx(&mut ctx, || {
         let r = catch(|| scen.run());
@@ -252,6 +288,7 @@ pub fn write_replay(path: &Path, build: &str, prop: &str, scen_name: &str, seed:
 
 pub fn cmd_replay(path: &str) -> i32 {
     sim::install_panic_hook();
+    install_watchdog();
     let s = match std::fs::read_to_string(path) {
         Ok(s) => s,
         Err(e) => {
@@ -331,6 +368,7 @@ pub struct WorkerArgs {
 
 pub fn cmd_worker(w: WorkerArgs) -> i32 {
     sim::install_panic_hook();
+    install_watchdog();
     let Some(scen) = scen::find_scenario(&w.scenario) else {
         eprintln!("unknown scenario {}", w.scenario);
         return 2;
